@@ -86,6 +86,28 @@ func runC04(c *Ctx) {
 		visit(f)
 	}
 	c.Check("value sends", 0, sends >= 2, "value sends (local+remote, both clients) exist", "found "+itoa(sends))
+	// values reach a search's output only through searchValueQuorum (which receives them from
+	// processValues, i.e. validated and selected): SearchValue itself, and anything nested in
+	// it, sends no []byte
+	for _, root := range []string{"(*dht.IpfsDHT).SearchValue", "(*dht/fullrt.FullRT).SearchValue"} {
+		rf := c.Fn(root)
+		for _, g := range c.P.Funcs() {
+			if g.Root() != rf {
+				continue
+			}
+			gi := g.Info()
+			g.Walk(func(n ast.Node) bool {
+				s, ok := n.(*ast.SendStmt)
+				if !ok {
+					return true
+				}
+				if tv, ok := gi.Types[s.Value]; ok && eng.TypeKey(tv.Type) == "[]byte" {
+					c.Check(K(g.Name, "send "+short(s.Value)), s.Pos(), false, "SearchValue puts no value on a channel itself: every value on its output went through validation and selection", "a []byte is sent from "+g.Name)
+				}
+				return true
+			})
+		}
+	}
 
 	// R2 best-so-far
 	c.Rule("R2")
